@@ -12,6 +12,10 @@ package main
 //   STATE/memo-key  a value is remembered under a key (package-level map or sync.Map) although it is
 //                   computed from an argument (or a part of one) that the key is not computed from:
 //                   a later call with the same key and a different argument gets the earlier answer.
+//   STATE/go-capture a goroutine is started on a function literal that reads a local variable of the
+//                   starting function, and the starting function assigns that same variable again
+//                   afterwards (a later branch or iteration) with no synchronisation in between: the
+//                   goroutine sees whichever value is there when it gets to run.
 //   STATE/pool      memory of an object taken from a sync.Pool is still referenced by the function's
 //                   result although the object is handed back to the pool.
 //
@@ -27,11 +31,45 @@ import (
 	"golang.org/x/tools/go/ssa"
 )
 
+// stateAnchors: package, receiver type ("" for a function), name of each property's exported entry points.
+var stateAnchors = func() map[string][][3]string {
+	gb := [][3]string{{"io/genbank", "", "Parse"}, {"io/genbank", "", "ParseMulti"}, {"io/genbank", "", "ParseFlat"}, {"io/genbank", "", "Build"}, {"io/genbank", "", "BuildMulti"}, {"", "Sequence", "AddFeature"}, {"", "Feature", "GetSequence"}}
+	sh := [][3]string{{"seqhash", "", "Hash"}, {"seqhash", "", "RotateSequence"}}
+	cd := [][3]string{{"transform/codon", "", "Translate"}, {"transform/codon", "", "Optimize"}, {"transform/codon", "Table", "OptimizeTable"}, {"transform/codon", "", "GetCodonTable"}, {"transform/codon", "", "AddCodonTable"}, {"transform/codon", "", "CompromiseCodonTable"}}
+	cl := [][3]string{{"clone", "", "CircularLigate"}, {"clone", "", "GoldenGate"}, {"clone", "", "CutWithEnzyme"}, {"clone", "", "CutWithEnzymeByName"}}
+	pr := [][3]string{{"primers", "", "NucleobaseDeBruijnSequence"}, {"primers", "", "CreateBarcodes"}, {"primers", "", "CreateBarcodesWithBannedSequences"}}
+	tm := [][3]string{{"primers", "", "SantaLucia"}, {"primers", "", "MarmurDoty"}, {"primers", "", "MeltingTemp"}}
+	return map[string][][3]string{
+		"C01": gb, "C02": gb, "C03": gb, "C04": sh, "C05": sh, "C12": sh,
+		"C06": cd, "C07": append(append([][3]string{}, cd...), [3]string{"random", "", "ProteinSequence"}), "C08": cd, "C18": cd,
+		"C09": cl, "C10": cl,
+		"C11": {{"transform", "", "ReverseComplement"}, {"transform", "", "Complement"}, {"transform", "", "Reverse"}, {"transform/variants", "", "AllVariantsIUPAC"}, {"checks", "", "IsPalindromic"}},
+		"C13": {{"io/fasta", "", "Parse"}, {"io/fasta", "", "ParseConcurrent"}, {"io/fasta", "", "Build"}, {"io/fasta", "", "Read"}, {"io/fasta", "", "ReadGz"}, {"io/fasta", "", "Write"}},
+		"C14": {{"io/gff", "", "Parse"}, {"io/gff", "", "Build"}, {"", "Sequence", "AddFeature"}, {"", "Feature", "GetSequence"}},
+		"C15": {{"io/polyjson", "", "Parse"}, {"io/polyjson", "", "Read"}, {"io/polyjson", "", "Write"}, {"", "Sequence", "AddFeature"}, {"", "Feature", "GetSequence"}},
+		"C16": {{"io/rebase", "", "Parse"}, {"io/rebase", "", "Read"}, {"io/rebase", "", "Export"}},
+		"C17": pr, "C19": tm,
+		"C20": {{"io/uniprot", "", "Parse"}, {"io/uniprot", "", "Read"}},
+	}
+}()
+
 // stateFamily: module functions reachable from the functions the property's rules analysed.
 func stateFamily(c *Ctx) []*ssa.Function {
 	var roots []*ssa.Function
 	for _, f := range c.W.moduleFuncs() {
 		if c.Funcs[f.String()] {
+			roots = append(roots, f)
+		}
+	}
+	// the property's exported entry points, whether or not a rule got as far as analysing them
+	for _, a := range stateAnchors[c.Prop] {
+		var f *ssa.Function
+		if a[1] == "" {
+			f = c.W.fn(a[0], a[2])
+		} else {
+			f = c.W.method(a[0], a[1], a[2])
+		}
+		if f != nil {
 			roots = append(roots, f)
 		}
 	}
@@ -180,7 +218,7 @@ func stateRules(c *Ctx) {
 			underOnce[g] = true
 		}
 	}
-	nWrites, nMemo, nPool := 0, 0, 0
+	nWrites, nMemo, nPool, nGo := 0, 0, 0, 0
 	for _, g := range fam {
 		g := g
 		tb := newDeepTB(g)
@@ -205,6 +243,33 @@ func stateRules(c *Ctx) {
 			case *ssa.MapUpdate:
 				if gl := globalRoot(x.Map); gl != nil {
 					writes = append(writes, wr{x, gl, []ssa.Value{x.Key, x.Value}})
+				}
+			case ssa.CallInstruction:
+				// feeding a package-level accumulator (a hasher, a buffer, a builder): Write*/Reset on an
+				// object that lives in a package-level variable
+				cc := x.Common()
+				var recv ssa.Value
+				name := ""
+				if cc.IsInvoke() {
+					recv, name = cc.Value, cc.Method.Name()
+				} else if cc.Signature().Recv() != nil && len(cc.Args) > 0 {
+					recv = cc.Args[0]
+					if f := cc.StaticCallee(); f != nil {
+						name = f.Name()
+					}
+				}
+				if recv == nil || !(strings.HasPrefix(name, "Write") || name == "Reset" || name == "Truncate" || name == "ReadFrom") {
+					return
+				}
+				if gl := globalRoot(recv); gl != nil {
+					vals := append([]ssa.Value{}, cc.Args...)
+					if !cc.IsInvoke() {
+						vals = vals[1:]
+					}
+					if len(vals) == 0 {
+						return // a bare Reset says nothing about whose data goes in
+					}
+					writes = append(writes, wr{x, gl, vals})
 				}
 			}
 		})
@@ -316,8 +381,10 @@ func stateRules(c *Ctx) {
 		})
 		// ---- pool
 		nPool += poolAlias(c, g, short1)
+		// ---- variables shared with a started goroutine
+		nGo += goCapture(c, g, short1)
 	}
-	c.ok("STATE", "family examined", fam[0].Pos(), fmt.Sprintf("%d functions reachable from the anchors examined: %d writes to package-level memory, %d remembered values, %d pooled objects", len(fam), nWrites, nMemo, nPool))
+	c.ok("STATE", "family examined", fam[0].Pos(), fmt.Sprintf("%d functions reachable from the anchors examined: %d writes to package-level memory, %d remembered values, %d pooled objects, %d goroutines started on function literals", len(fam), nWrites, nMemo, nPool, nGo))
 }
 
 func unwrapIface(v ssa.Value) ssa.Value {
@@ -574,4 +641,133 @@ func poolAlias(c *Ctx, g *ssa.Function, short1 string) int {
 		}
 	})
 	return n
+}
+
+// goCapture: `go func() { ... x ... }()` where x is a variable of g that g stores to again on a path
+// from the go statement that neither re-declares x nor passes a synchronisation point.
+func goCapture(c *Ctx, g *ssa.Function, short1 string) int {
+	n := 0
+	eachInstr(g, func(i ssa.Instruction) {
+		gi, ok := i.(*ssa.Go)
+		if !ok {
+			return
+		}
+		mc, ok := gi.Call.Value.(*ssa.MakeClosure)
+		if !ok {
+			return
+		}
+		n++
+		fn, _ := mc.Fn.(*ssa.Function)
+		if fn == nil {
+			return
+		}
+		for bi, b := range mc.Bindings {
+			al, ok := b.(*ssa.Alloc)
+			if !ok || bi >= len(fn.FreeVars) {
+				continue
+			}
+			// the literal reads the variable
+			reads := false
+			fv := fn.FreeVars[bi]
+			if fv.Referrers() != nil {
+				for _, r := range *fv.Referrers() {
+					switch x := r.(type) {
+					case *ssa.UnOp:
+						reads = true
+					case *ssa.FieldAddr, *ssa.IndexAddr:
+						reads = true
+					case *ssa.Store:
+						if x.Addr != ssa.Value(fv) {
+							reads = true
+						}
+					}
+				}
+			}
+			if !reads {
+				continue
+			}
+			if st := storeAfter(gi, al); st != nil {
+				c.bad("STATE", "go-capture:"+short1+"."+al.Comment, gi.Pos(), fmt.Sprintf("%s starts a goroutine on a function literal that reads the local variable %s, and assigns %s again afterwards (%s) with nothing that orders the two: the goroutine works on whichever value it finds when it runs, so one value can be processed twice and another never", short1, al.Comment, al.Comment, c.W.pos(st.Pos())))
+			}
+		}
+	})
+	return n
+}
+
+// storeAfter: a store into variable al that control can reach from the go statement without passing
+// the declaration of al again (a fresh variable per iteration) and without a synchronisation point.
+func storeAfter(gi *ssa.Go, al *ssa.Alloc) *ssa.Store {
+	isSync := func(i ssa.Instruction) bool {
+		switch x := i.(type) {
+		case ssa.CallInstruction:
+			switch calleeName(x) {
+			case "(*sync.WaitGroup).Wait", "(*sync.Mutex).Lock", "(*sync.RWMutex).Lock":
+				return true
+			}
+		case *ssa.UnOp:
+			return x.Op.String() == "<-"
+		case *ssa.Select:
+			return true
+		}
+		return false
+	}
+	rooted := func(addr ssa.Value) bool {
+		for {
+			switch y := addr.(type) {
+			case *ssa.FieldAddr:
+				addr = y.X
+				continue
+			case *ssa.IndexAddr:
+				addr = y.X
+				continue
+			}
+			return addr == ssa.Value(al)
+		}
+	}
+	// scan a block from instruction index k; returns the store found, and whether the scan may go on
+	scan := func(b *ssa.BasicBlock, k int) (*ssa.Store, bool) {
+		for ; k < len(b.Instrs); k++ {
+			in := b.Instrs[k]
+			if in == ssa.Instruction(al) || isSync(in) {
+				return nil, false
+			}
+			if st, ok := in.(*ssa.Store); ok && rooted(st.Addr) {
+				// `return x, ...` with named results stores each result variable back into itself
+				if ld, isLoad := st.Val.(*ssa.UnOp); isLoad && ld.Op.String() == "*" && ld.X == st.Addr {
+					continue
+				}
+				return st, false
+			}
+		}
+		return nil, true
+	}
+	blk := gi.Block()
+	start := 0
+	for k, in := range blk.Instrs {
+		if in == ssa.Instruction(gi) {
+			start = k + 1
+		}
+	}
+	st, goOn := scan(blk, start)
+	if st != nil || !goOn {
+		return st
+	}
+	seen := map[*ssa.BasicBlock]bool{}
+	work := append([]*ssa.BasicBlock{}, blk.Succs...)
+	for len(work) > 0 {
+		b := work[len(work)-1]
+		work = work[:len(work)-1]
+		if seen[b] {
+			continue
+		}
+		seen[b] = true
+		st, goOn := scan(b, 0)
+		if st != nil {
+			return st
+		}
+		if goOn {
+			work = append(work, b.Succs...)
+		}
+	}
+	return nil
 }
